@@ -146,6 +146,49 @@ func CheckDataMsg(msg *entities.Message, fields []ref.Field, body []byte, mode c
 	return nil
 }
 
+// ExtendAndRecheck plays a consumer that extends the records of a delivered data message: the records
+// are the consumer's once delivered, and consumers append fields to them (the library's own aggregation
+// process does). One more field on every record must leave every other record of the message as it
+// was delivered. The message is changed by the call: use it when everything else has been judged.
+func ExtendAndRecheck(msg *entities.Message) *ev.Failure {
+	set := msg.GetSet()
+	if set == nil || set.GetSetType() != entities.Data {
+		return nil
+	}
+	recs := set.GetRecords()
+	type seen struct {
+		el entities.InfoElementWithValue
+		v  ref.Value
+		t  ref.Type
+	}
+	before := make([][]seen, len(recs))
+	for ri, rec := range recs {
+		for _, el := range rec.GetOrderedElementList() {
+			v, t, _ := ValueOf(el)
+			before[ri] = append(before[ri], seen{el, v, t})
+		}
+	}
+	extra := entities.NewInfoElement("verifAppendedByConsumer", 998, entities.Unsigned32, UserEnt, 4)
+	for ri, rec := range recs {
+		if err := rec.AddInfoElement(entities.NewUnsigned32InfoElement(extra, uint32(ri))); err != nil {
+			return nil // records that cannot be extended: nothing to check
+		}
+	}
+	for ri, rec := range recs {
+		els := rec.GetOrderedElementList()
+		if len(els) != len(before[ri])+1 {
+			return ev.Failf("after the consumer appended one field to every delivered record, record %d has %d fields (%d were delivered)", ri, len(els), len(before[ri]))
+		}
+		for fi, b := range before[ri] {
+			v, _, _ := ValueOf(els[fi])
+			if els[fi] != b.el || !SameValue(b.t, v, b.v) {
+				return ev.Failf("after the consumer appended one field to every delivered record, field %d of record %d is no longer what was delivered (now element %q): the records of one message share storage", fi, ri, els[fi].GetName())
+			}
+		}
+	}
+	return nil
+}
+
 func clipB(b []byte) []byte {
 	if len(b) > 32 {
 		return b[:32]
